@@ -78,7 +78,6 @@ ESCAPES = {"'": 39, '"': 34, "?": 63, "\\": 92, "0": 0, "a": 7, "b": 8, "f": 12,
 PLAIN_CHARS = [c for c in map(chr, range(32, 127)) if c not in "'\\/*\""]
 BAD_TOKENS = ["1.5", "1e3", "0x1p3", "'ab'", "'\\x41'", "'\\1'", "'\\e'", "L'a'", "0.5", "1.0f", "'\\12'", "u'a'"]
 UNSUPPORTED = ["~", "!", "<", "==", "&&", "||", "?:", "sizeof", "cast"]
-TAGS = ["int", "uint", "long", "ulong", "llong", "ullong"]
 CTYPE_OF_TAG = {"int": "int", "uint": "unsigned int", "long": "long", "ulong": "unsigned long",
                 "llong": "long long", "ullong": "unsigned long long"}
 
